@@ -16,7 +16,7 @@ META = {
             "document was forgotten; M3 an unappliable edit forgets the document and is not applied; M4 every request route except "
             "the lifecycle ones goes through request_snap, whose task body is with_catch_unwind and which answers from one await; M5 no "
             "handler re-acquires a lock it holds or waits for the analysis host while holding the document store (shared with C16/W1). "
-            "One obligation per site. Verifier-style: a new unjustified site is reported. M7 a self-recursive function reachable from the handlers is cut by a visited set that is asked with the key it is filled with. M8 = C13/D8; the response future of a request is an entry of M1.",
+            "One obligation per site. Verifier-style: a new unjustified site is reported. M7 a self-recursive function reachable from the handlers is cut by a visited set that is asked with the key it is filled with. M8 = C13/D8; the response future of a request is an entry of M1. M11 = C13/D2 (each change of a notification is converted with the line map of the text after the previous one: else a valid later change is applied somewhere else). M10 lower_vfs deals a file to a root only behind a prefix test (the invariant the reviewed strip_prefix(..).expect(..) of module_name relies on). M9 = C10/Q9 (a request that walks 2^depth steps keeps its snapshot and the next edit blocks the main loop for ever).",
     "explanation": "The main loop has no CatchUnwindLayer (lib.rs: TODO), so any panic in a notification/event handler ends the "
                    "process. Engine G lists every panic-capable construct reachable from those handlers through crates glas and ide "
                    "(closures handed to spawn functions run elsewhere and are cut), and demands a justification for each. The "
@@ -223,6 +223,12 @@ def run(F, res, tier):
     c16.lock_rules(F, res, w1="M5", w3="M5")
     notifications_cannot_stop_the_loop(F, res)
     recursion_is_cut(F, res, seen)
+    # a request that never ends keeps its snapshot: the next edit blocks the main loop in request_cancellation() for ever
+    from rules import c10 as _c10q
+    _c10q.no_double_descent(F, res, rule="M9")
+    files_lie_below_their_root(F, res)
+    _c13x2 = __import__("rules.c13", fromlist=["x"])
+    _c13x2.edits_use_the_current_line_map(F, res, rule="M11")
     from rules import c13 as _c13x
     _c13x.file_ids_are_slot_keys(F, res, rule="M8")
 
@@ -477,3 +483,56 @@ def recursion_is_cut(F, res, seen, rule="M7"):
         res.ob(rule, "recursion/" + p.rsplit("::", 1)[-1], "the recursion of %s is cut by its visited set: every recursive call happens only after a lookup "
                "with the inserted key found nothing" % p.rsplit("::", 1)[-1], ok_all, where=f.loc(),
                how="; ".join(why) if why else "%d recursive calls, each behind such a lookup" % len(calls))
+
+
+def files_lie_below_their_root(F, res, rule="M10"):
+    """M10: Change::apply computes a module name by stripping the root's path from the file's (`strip_prefix(..).expect(..)`, a
+    reviewed M1 site on the unguarded main loop). What makes that safe is established in another function: Server::lower_vfs
+    deals a file to a root only if the root's path is a prefix of the file's. The insertion into a root's FileSet is reached
+    only behind a prefix test: Path::starts_with / strip_prefix, or a component-wise comparison (`zip(..).all(..)`) together
+    with a comparison of the two lengths (zip stops at the shorter side: without the length test a file whose path is an
+    ancestor of a root's - `…/notes` next to `…/notes/draft.gleam` - lands in that root and the server dies)."""
+    lv = F.fn("glas::server::Server::lower_vfs")
+    units = [lv] + [F.fns[c] for c in F.closures_of(lv.path)]
+    ins = [(b, t) for b, t in lv.calls() if (callee(t) or "").endswith("FileSet::insert")]
+    d = FL.Defs(lv)
+
+    def is_len(f_, d_, op):
+        o = d_.origin_op(op)
+        return o.get("k") == "call" and FL.short(callee(o["t"]) or callee_def(o["t"]) or "").rsplit("::", 1)[-1] in ("len", "count")
+
+    def evidence(f_, d_, gs):
+        starts = allz = lens = False
+        for g in gs:
+            c = FL.short(g.get("callee") or "")
+            if c.rsplit("::", 1)[-1] in ("starts_with",) and g["allowed"] == [True] or c.rsplit("::", 1)[-1] == "strip_prefix" and g["allowed"] in (["Ok"], ["Continue"]):
+                starts = True
+            if c.endswith("Iterator::all") and g["allowed"] == [True]:
+                allz = True
+            o = g.get("origin") or {}
+            if o.get("k") == "rv" and o["rv"].get("k") == "bin" and o["rv"].get("op") in ("Gt", "Lt", "Ge", "Le") and \
+                    is_len(f_, d_, o["rv"]["a"]) and is_len(f_, d_, o["rv"]["b"]):
+                lens = True
+            # the test lives in a closure handed to find / position / filter / any
+            if c.rsplit("::", 1)[-1] in ("find", "position", "filter", "any", "find_map") and g["allowed"] in (["Some"], [True]):
+                for ta in (g["call_t"].get("fn") or {}).get("targs", []) or []:
+                    for cf in units[1:]:
+                        if str((cf.d.get("span") or {}).get("lo")) in ta and "{closure@" in ta:
+                            dc = FL.Defs(cf)
+                            s2, a2, l2 = evidence(cf, dc, FL.gates(F, cf, [b for b in cf.return_blocks()], dc))
+                            # a closure that answers with the value of one expression has no gates: look at what it computes
+                            calls = {FL.short(callee(t2) or callee_def(t2) or "").rsplit("::", 1)[-1] for _b2, t2 in cf.calls()}
+                            cmpl = any(s_.get("rv", {}).get("k") == "bin" and s_["rv"].get("op") in ("Gt", "Lt", "Ge", "Le") and
+                                       is_len(cf, dc, s_["rv"]["a"]) and is_len(cf, dc, s_["rv"]["b"]) for _b3, _i3, s_ in cf.stmts() if s_.get("rv"))
+                            starts = starts or s2 or "starts_with" in calls or "strip_prefix" in calls
+                            allz = allz or a2 or "all" in calls
+                            lens = lens or l2 or cmpl
+        return starts, allz, lens
+    ok, why = bool(ins), []
+    for b, t in ins:
+        starts, allz, lens = evidence(lv, d, FL.gates(F, lv, [b], d))
+        if not (starts or (allz and lens)):
+            ok = False
+            why.append("insertion at line %d: starts_with/strip_prefix test %s, component-wise all() %s, length comparison %s" % (t["ln"], starts, allz, lens))
+    res.ob(rule, "lower_vfs/file-below-root", "a file is dealt to a source root only if the root's path is a prefix of the file's path (what "
+           "module_name's strip_prefix(..).expect(..) relies on)", ok, where=lv.loc(), how="; ".join(why) or "%d insertions, each behind a prefix test" % len(ins))
